@@ -686,6 +686,13 @@ class Evaluator(object):
     def st_FunctionDef(self, node, st):
         q = self._frames[-1] + '.<locals>.' + node.name
         st.env[node.name] = ('localfn', q)
+        # the environment the function closes over (it may be called from another frame: handed to a helper that calls it)
+        root = self
+        while getattr(root, '_parent_eval', None) is not None:
+            root = root._parent_eval
+        if not hasattr(root, '_closures'):
+            root._closures = {}
+        root._closures[q] = st.env
         return [(None, st)]
 
     def st_ClassDef(self, node, st):
@@ -1634,6 +1641,9 @@ class Evaluator(object):
                         s_b.guards = saved
                         pairs.append(((a, b), s_b))
                 for (a, b), s2 in pairs:
+                    if not neg and a == c and c[0] in ('param', 'name', 'attr'):
+                        out.append((('boolop', 'or', (c, b)), s2))          # `x if x else y` is `x or y`
+                        continue
                     # canonical polarity: `x if p != q else y` and `y if p == q else x` are the same term
                     if neg and c[0] not in ('boolop', 'ifexp'):
                         out.append((('ifexp', atom, b, a), s2))
@@ -1966,9 +1976,19 @@ class Evaluator(object):
             if d == 'dict' and not xargs and kws and not any(k == '**' for k, _ in kws) and 'dict' not in s.env:
                 out.append((('dict', tuple((const(k), v) for k, v in kws)), s))
                 continue
+            # g(functools.partial(w, k=v, ...), ...) where g hands its own **kwargs on to the worker it is given (reduce_axis, apply_along_axis): the options bound
+            # to the worker beforehand are the options g would have handed on - the same term as g(w, ..., k=v, ...)
+            if f[0] == 'attr' and f[2] in self.KWARGS_TO_WORKER and xargs and xargs[0][0] == 'call' and T.dotted(xargs[0][1]) in ('functools.partial', 'partial') \
+                    and len(xargs[0][2]) == 1 and not (set(k for k, _ in xargs[0][3] if k != '**') & set(k for k, _ in kws)) \
+                    and not (any(k == '**' for k, _ in xargs[0][3]) and any(k == '**' for k, _ in kws)):
+                part = xargs[0]
+                xargs = [part[2][0]] + list(xargs[1:])
+                kws = list(kws) + list(part[3])
             call = ('call', f, tuple(xargs), tuple(kws))
             out.extend(self._do_call(call, node, s))
         return out
+
+    KWARGS_TO_WORKER = ('reduce_axis', 'apply_along_axis')
 
     @staticmethod
     def _expand_mapping(v):
@@ -2113,6 +2133,7 @@ class Evaluator(object):
         sub = Evaluator(self.P, fi, mode=self.mode, oracle=self.oracle, inline=self.inline,
                         max_paths=self.max_paths, inline_depth=self.inline_depth, fork_asserts=self.fork_asserts)
         sub._frames = self._frames + [fi.qualname]
+        sub._parent_eval = self
         sub._loop_ids = self._loop_ids
         sub._try_ids = self._try_ids
         sub._depth = self._depth
@@ -2144,7 +2165,11 @@ class Evaluator(object):
         saved_env = st.env
         # closures: local functions see the caller's locals
         if f[0] == 'localfn':
-            e2 = dict(saved_env)
+            root = self
+            while getattr(root, '_parent_eval', None) is not None:
+                root = root._parent_eval
+            defined_in = getattr(root, '_closures', {}).get(f[1])
+            e2 = dict(defined_in if defined_in is not None else saved_env)
             e2.update(env)
             env = e2
         st.env = env
